@@ -10,6 +10,7 @@
    tag set or an altered `matched` expression changes the generated data and breaks the proof. *)
 From Coq Require Import String ZArith.
 From Adb Require Import Base Generated Hashing Net_Model Struct_Proofs.
+From Adb Require Net_Proofs.
 From Adb Require C13_Model.
 Import CheckGen.
 Local Open Scope string_scope.
@@ -118,6 +119,30 @@ Proof.
           try destruct (check matches (b_exceptions b) pr (b_tags b)); reflexivity.
 Qed.
 End Interp.
+
+(* the public entry points: Engine::check_network_request / Blocker::check hand (false, false) to
+   check_parameterised, Engine::check_network_request_subset hands its two flags on in the order it
+   received them: the ordinary query IS blocker_check, the subset query IS blocker_check_p with
+   (previously_matched_rule, force_check_exceptions) in that order *)
+Definition flag_named (n : string) (a1 a2 : bool) : option bool :=
+  if String.eqb n "false" then Some false else if String.eqb n "true" then Some true
+  else if String.eqb n "arg1" then Some a1 else if String.eqb n "arg2" then Some a2 else None.
+Definition interp_entry (matches : rule -> bool) (pr : list N) (flags : string * string) (a1 a2 : bool) (b : blocker)
+  : option verdict :=
+  match flag_named (fst flags) a1 a2, flag_named (snd flags) a1 a2 with
+  | Some mr, Some fc => Some (interp_check matches pr mr fc b)
+  | _, _ => None
+  end.
+Theorem entry_points_are_model matches pr previously_matched_rule force_check_exceptions b :
+  interp_entry matches pr plain_query_flags previously_matched_rule force_check_exceptions b
+  = Some (blocker_check matches pr b)
+  /\ interp_entry matches pr subset_query_flags previously_matched_rule force_check_exceptions b
+    = Some (blocker_check_p matches pr previously_matched_rule force_check_exceptions b).
+Proof.
+  unfold interp_entry, plain_query_flags, subset_query_flags.
+  cbn [fst snd flag_named String.eqb Ascii.eqb Bool.eqb].
+  rewrite !interp_check_is_model, Net_Proofs.blocker_check_p_ff. split; reflexivity.
+Qed.
 
 (* an unsupported request gets the default answer before any list is consulted (Engine_Model) *)
 Theorem unsupported_returns_default : returns_default_when = QNot (QAtom Q_supported).
